@@ -3,7 +3,7 @@
 From Coq Require Import List NArith ZArith FMapPositive Lia Bool Permutation.
 From MM Require Import Base.GCGraph Base.GCReach Model.Graph Model.Scc.
 Import ListNotations.
-Open Scope N_scope.
+Local Open Scope N_scope.
 
 (* ------------------------------------------------------------------ lists *)
 Lemma NoDup_app_iff : forall (A : Type) (l1 l2 : list A),
